@@ -262,7 +262,21 @@ class Engine(  # pylint:disable=too-few-public-methods
             else:
                 # let pandas transform any acceptable value
                 # into a numpy or pandas dtype.
-                np_or_pd_dtype = pd.api.types.pandas_dtype(data_type)
+                try:
+                    np_or_pd_dtype = pd.api.types.pandas_dtype(data_type)
+                except (
+                    ValueError,
+                    NotImplementedError,
+                    AssertionError,
+                    SyntaxError,
+                ) as err:
+                    raise TypeError(
+                        f"Data type '{data_type}' not understood by "
+                        f"{cls.__name__}."
+                    ) from err
+                if is_pyarrow_dtype(np_or_pd_dtype):
+                    # e.g. "timestamp[ns][pyarrow]"
+                    return cls.dtype(np_or_pd_dtype)
                 if isinstance(np_or_pd_dtype, np.dtype):
                     # cast alias to platform-agnostic dtype
                     # e.g.: np.intc -> np.int32
